@@ -122,6 +122,9 @@ def assigned_and_mutated(body):
             return None if p is None else p + '.' + n.attr
         if isinstance(n, ast.Subscript):
             return path_of(n.value)
+        if isinstance(n, ast.Call) and isinstance(n.func, ast.Attribute) and n.func.attr in ('setdefault', 'get'):
+            # d.setdefault(k, v).append(x) / d.get(k).append(x): a write into (an element of) d
+            return path_of(n.func.value)
         return None
 
     def target(t):
@@ -844,6 +847,8 @@ class Interp:
         ordinal = fr.loop_ordinals[id(s)]
         lspec = self.spec.loops.get((fr.fi.qualname, ordinal))
         if lspec is None:
+            lspec = self._default_loop_contract(fr, s)
+        if lspec is None:
             raise Unsupported('loop %d of %s (line %d) over a symbolic collection has no contract'
                               % (ordinal, fr.fi.qualname, s.lineno))
         if s.orelse:
@@ -852,6 +857,29 @@ class Interp:
                       bind=lambda x: self.assign(s.target, x, fr),
                       body=lambda: self.exec_block(s.body, fr),
                       frame_nodes=[s.target] + s.body, iter_node=s.iter)
+
+    def _default_loop_contract(self, fr, s):
+        """A loop no contract mentions (typically one that a refactoring introduced or moved into a helper): the weakest contract - no invariant, every
+        local the body assigns or mutates is unknown afterwards - provided the body writes nothing but locals of this function that hold objects
+        built in this function.  One arbitrary iteration is still executed, so an exception the body can raise is still seen.  Sound
+        over-approximation; a value made unknown here cannot reach tracked state without the run becoming UNDECIDED."""
+        fn = fr.fi.node
+        params = {a.arg for a in fn.args.posonlyargs + fn.args.args + fn.args.kwonlyargs}
+        if fn.args.vararg:
+            params.add(fn.args.vararg.arg)
+        names, paths = assigned_and_mutated(s.body)
+        tn, _ = assigned_and_mutated([ast.Assign(targets=[s.target], value=ast.Constant(0))])
+        havoc = {}
+        for p in paths:
+            if p == '<complex>' or '.' in p:
+                return None
+            if p in params or not (self._fresh_in_body(p, fn.body) or p in names):
+                return None
+        for nme in (names | set(paths)) - tn:
+            if nme in params:
+                return None
+            havoc[nme] = lambda I_: Untracked()
+        return LoopSpec(lambda I_, env, k, it: {}, havoc)
 
     def concrete_items(self, it):
         if isinstance(it, Poison):
